@@ -302,6 +302,20 @@ func (db *SpecDB) LoadFile(path, pkgPath, prefix string) {
 				}
 			case "loop":
 				f := strings.Fields(rest)
+				if len(f) >= 3 && f[1] == "preserves" && f[2] == "old" {
+					n, err := strconv.Atoi(f[0])
+					if err != nil {
+						db.errf(path, rl.line, "bad loop ordinal")
+						continue
+					}
+					lc := cur.Loops[n]
+					if lc == nil {
+						lc = &LoopContract{Ordinal: n}
+						cur.Loops[n] = lc
+					}
+					lc.PreservesOld = true
+					continue
+				}
 				if len(f) >= 3 && f[1] == "body-assert" {
 					n, err := strconv.Atoi(f[0])
 					if err != nil {
